@@ -571,6 +571,12 @@ Proof.
   apply (M_one c s HM t1 t2 i1 i2); right; assumption.
 Qed.
 
+(** While every owner lives nobody ever judges the lock file stale: no thread is about to
+    remove it (the documented race between two waiters that both remove a stale file needs
+    a dead holder first). *)
+Theorem stale_removal_needs_dead_owner s t ec : reach c (live_ok c) init s -> cs s t <> CStale ec.
+Proof. intros R. destruct (BothInv_reach s R) as [_ HM]. apply (M_nostale c s HM). Qed.
+
 (** A create can only succeed when nobody holds (or is about to hold) the lock ... *)
 Theorem waiter_after_release s t s' ec i : reach c (live_ok c) init s ->
   step c s (LTryCreate t) = Some s' -> cs s' t = CCreated ec i ->
